@@ -2717,7 +2717,7 @@ func (x *SExec) doAddWrite(i int, op SOp) *Fail {
 	x.Labels["write:acked"]++
 	for _, j := range W {
 		if !reached[j] {
-			return sfail("write|acknowledged-but-missing-on-in-service-replica", fmt.Sprintf("the write was acknowledged while n%d was being added; n%d is in service (%s) and never received it (applied by %v)", n, j, x.Mode[j], keys(reached)), "C02", "C07")
+			return sfail("write|acknowledged-but-missing-on-in-service-replica", fmt.Sprintf("the write was acknowledged while n%d was being added; n%d is in service (%s) and never received it (applied by %v): once it is RW, reads served by it miss an acknowledged write", n, j, x.Mode[j], keys(reached)), "C02", "C07", "C04")
 		}
 	}
 	return nil
